@@ -134,7 +134,9 @@ PROPS = {
             'bind': ['bind:handlers'], 'standin': True},
     'C17': {'functions': [CFG + 'start_section', CFG + 'end_section', CFG + 'handle_key_value', 'schemaless.Section.addValue', 'schemaless.Section.__init__',
                           'schemaless.Context.startSection', 'schemaless.Context.endSection',
-                          'schemaless.Context.includeConfiguration', 'schemaless.Parser.handle_define'], 'standin': True},
+                          'schemaless.Context.includeConfiguration', 'schemaless.Parser.handle_define',
+                          'schemaless.Resource.__init__', 'schemaless.Context.__init__', 'schemaless.Context.importSchemaComponent'],
+            'standin': True},
     'C18': {'functions': ['schema.SchemaParser.extendSchema', 'schema.SchemaParser.start_schema', SP + 'loadComponent', 'url.urlnormalize', 'url.urldefrag', 'url.urljoin', 'loader.BaseLoader.isPath', 'loader.BaseLoader.normalizeURL', 'loader._url_from_file',
                           'loader.BaseLoader._raise_open_error', CFG + '__init__', CFG + 'handle_include', 'schema.parseResource', 'schema.parseComponent'],
             'rx': ['rx:loader._pathsep_rx'], 'standin': True},
@@ -150,7 +152,7 @@ PROPS = {
             'standin': True},
     'C20': {'functions': ['components.logger.datatypes.logging_level', 'components.logger.factory.Factory.__init__',
                           'components.logger.factory.Factory.__call__',
-                          'components.logger.handlers.HandlerFactory.__init__',
+                          'components.logger.handlers.HandlerFactory.__init__', 'components.logger.handlers.HandlerFactory.create',
                           'components.logger.handlers.FileHandlerFactory.__init__',
                           'components.logger.loghandler._remove_from_reopenable', 'components.logger.loghandler.reopenFiles',
                           'components.logger.loghandler.closeFiles', 'components.logger.logger.LoggerFactoryBase.__init__',
